@@ -37,6 +37,9 @@ pub struct Knobs {
     /// `(row, column, value)` cells overwritten (through their copy class) after the lookup
     /// wires have been filled in by the prover.
     pub witness_overrides: Vec<(usize, usize, u64)>,
+    /// STARK prover: `(polynomial index, row, delta)`: add `delta` to one value of one auxiliary
+    /// (lookup helper / running sum / cross-table) polynomial before it is committed.
+    pub aux_perturb: Option<(usize, usize, u64)>,
 }
 
 thread_local! {
@@ -113,6 +116,27 @@ pub(crate) fn hook_quotient<F: Field>(
         for p in polys.iter_mut() {
             if p.coeffs.len() > quotient_degree {
                 p.coeffs.truncate(quotient_degree);
+            }
+        }
+    }
+    polys
+}
+
+/// Public entry points for the STARK prover (another crate).
+pub fn hook_stark_quotient<F: Field>(
+    polys: Vec<PolynomialCoeffs<F>>,
+    quotient_degree: usize,
+) -> Vec<PolynomialCoeffs<F>> {
+    hook_quotient(polys, quotient_degree)
+}
+
+pub fn hook_stark_aux<F: Field>(mut polys: Vec<PolynomialValues<F>>) -> Vec<PolynomialValues<F>> {
+    if let Some((poly, row, delta)) = knobs().aux_perturb {
+        let n = polys.len().max(1);
+        if let Some(p) = polys.get_mut(poly % n) {
+            let len = p.values.len().max(1);
+            if let Some(v) = p.values.get_mut(row % len) {
+                *v += F::from_noncanonical_u64(delta);
             }
         }
     }
